@@ -238,3 +238,47 @@ def symbol_scan():
         return None
     finally:
         shutil.rmtree(d, ignore_errors=True)
+
+
+LAYOUT_SRC = r'''
+#define FFSM2_ENABLE_PLANS
+#include <ffsm2/machine.hpp>
+#include <cstdio>
+#include <cstddef>
+#include <cstdint>
+template <unsigned A, unsigned S> struct alignas(A) P { unsigned char b[S]; };
+template <unsigned A, unsigned S> static void row() {
+	using T = ffsm2::detail::TransitionT<P<A, S> >;
+	using K = ffsm2::detail::TaskT<P<A, S> >;
+	static_assert(sizeof(P<A, S>) == S && alignof(P<A, S>) == A, "payload family");
+	std::printf("Transition A=%u size=%u off=%zu align=%zu sizeof=%zu\n", A, S, offsetof(T, storage), alignof(T), sizeof(T));
+}
+template <unsigned A, unsigned S> static void rowK() {
+	using K = ffsm2::detail::TaskT<P<A, S> >;
+	std::printf("Task A=%u size=%u off=%zu align=%zu sizeof=%zu\n", A, S, offsetof(K, storage), alignof(K), sizeof(K));
+}
+int main() {
+	row<1,1>(); row<2,2>(); row<4,4>(); row<8,16>(); row<16,32>(); row<8,8>(); row<4,12>();
+	rowK<1,1>(); rowK<2,2>(); rowK<4,4>(); rowK<8,16>(); rowK<16,32>(); rowK<8,8>(); rowK<4,12>();
+	return 0;
+}
+'''
+
+
+def layout_check():
+    """offsetof / alignof / sizeof of TransitionT<P> and TaskT<P> for a payload family vs the Lean layout model"""
+    exe, logtxt = C.build_harness("layout", LAYOUT_SRC, ["-std=c++11", "-O0", "-Wno-invalid-offsetof"])
+    if exe is None:
+        return {"what": "layout probe does not compile", "log": logtxt[-600:]}, []
+    rc, out = C.run([exe])
+    rc2, model = C.run([C.DRIVER, "layout"])
+    a, b = out.strip().split("\n"), model.strip().split("\n")
+    problems = []
+    for l in a:
+        f = dict(t.split("=") for t in l.split()[1:])
+        if int(f["off"]) % int(f["A"]) != 0 or int(f["align"]) % int(f["A"]) != 0:
+            return {"what": "payload storage is not aligned for its type: " + l}, a
+    if a != b:
+        d = [(x, y) for x, y in zip(a, b) if x != y][:3]
+        return {"what": "object layout differs from the layout model", "first": d, "disagreement_only": True}, a
+    return None, a
